@@ -72,6 +72,7 @@ SPEC = {
     },
     "InstructionDecodeStage": {
         "abbr": "ID",
+        "other": ("stall_signal",),
         "guard": "isinstance(PR, InstructionFetchPipelineRegister)",
         "empty": "InstructionDecodePipelineRegister",
         "latch_class": "InstructionDecodePipelineRegister",
@@ -235,6 +236,12 @@ def datapath_rule(ctx: Ctx, rid: str, fields_only: dict | None = None, section: 
         if len(full) != 1:
             continue
         kws = {k.arg: k.value for k in full[0].value.keywords if k.arg}  # type: ignore[union-attr]
+        if only is None and section == "latch":
+            known = set(spec["latch"]) | set(spec.get("drain", {})) | set(spec.get("other", ()))
+            extra = sorted(set(kws) - known)
+            r.check(not extra, f"{ab}|no-other-field", f.loc(full[0].node),
+                    f"{ab} sets latch field(s) {extra} that the documented datapath does not carry across this stage "
+                    "(e.g. a stalled-value marker copied forward changes when later stages act)")
         for fld, src in spec[section].items():
             if only is not None and fld not in only:
                 continue
